@@ -840,3 +840,65 @@ mod tests {
         TunnResult::Done
     }
 }
+
+/// Verification hooks: expose the gateway's ingress decision for one datagram exactly as the
+/// receive loop takes it (policy check, then SCMP error construction into a pool buffer).
+#[cfg(feature = "verif-hooks")]
+pub mod verif {
+    use std::{net::IpAddr, sync::Arc, time::Instant};
+
+    use sciparse::packet::view::ScionPacketView;
+
+    use super::*;
+    use crate::tunnel_gateway::NoopTunnelGatewayObserver;
+
+    /// What the gateway does with a datagram received through a client's tunnel.
+    #[derive(Debug, Clone, PartialEq, Eq)]
+    pub enum IngressOutcome {
+        /// Handed to `Dispatcher::try_dispatch`.
+        Dispatch,
+        /// Answered with this SCMP packet (already truncated to the encoded length).
+        Reply(Vec<u8>),
+        /// The SCMP reply could not be encoded; nothing is sent.
+        ReplyFailed(String),
+    }
+
+    struct NoAuthz;
+    impl SnapTunAuthorization for NoAuthz {
+        type SessionData = ();
+        fn is_authorized(&self, _now: Instant, _identity: &[u8; 32]) -> Option<Arc<()>> {
+            None
+        }
+    }
+    struct NoDispatch;
+    impl Dispatcher for NoDispatch {
+        fn try_dispatch(&self, _packet: &ScionPacketView) {}
+    }
+
+    /// Size of the buffers the gateway encodes SCMP replies into.
+    pub const SEND_BUF_SIZE: usize = PACKET_BUF_SIZE;
+
+    /// Runs `inbound_datagram_check` and, on rejection, `TunnelGateway::create_scmp_error`
+    /// with the same arguments as the receive loop.
+    pub fn ingress_outcome(datagram: &[u8], peer: IpAddr, local_addr: ScionHostAddr) -> IngressOutcome {
+        match inbound_datagram_check(datagram, peer) {
+            Ok(_view) => IngressOutcome::Dispatch,
+            Err(e) => {
+                let pool = PacketPool::new(1);
+                let mut target_buf = pool.get();
+                match TunnelGateway::<NoAuthz, NoDispatch, NoopTunnelGatewayObserver>::create_scmp_error(
+                    e,
+                    local_addr,
+                    ScionAddr::new(IsdAsn::WILDCARD, peer.into()),
+                    &mut target_buf,
+                ) {
+                    Ok(n) => {
+                        target_buf.truncate(n);
+                        IngressOutcome::Reply(target_buf[..].to_vec())
+                    }
+                    Err(e) => IngressOutcome::ReplyFailed(format!("{e:?}")),
+                }
+            }
+        }
+    }
+}
